@@ -1,7 +1,7 @@
 /-
   EmdModel.Sift — model of emd/sift.py: get_next_imf (C04), sift (C01, C03) and the
-  counter / cap logic of mask_sift, ensemble_sift, complete_ensemble_sift and
-  sift_second_layer (C03).
+  counter / cap logic of mask_sift, ensemble_sift, complete_ensemble_sift,
+  sift_second_layer and mask_sift_second_layer (C03).
 
   Library numerics are oracle parameters:
     * the envelope interpolant `I` (splrep/splev, pchip) — values only; *whether* an envelope
@@ -257,6 +257,44 @@ def secondLayer (S : Nat → Sig → List Sig) (n : Nat) (ia : List Sig) (cap : 
   let k := cap.getD ia.length
   ia.map fun col => padCols n k (S k col)
 
+/-- how `mask_sift_second_layer` ends -/
+inductive L2Result where
+  | ok (blocks : List (List Sig))
+  | indexError (col : Nat)      -- `mask_freqs[col:]` is empty: `mask_sift` reads `mask_freqs[0]` → IndexError
+  | raised (col : Nat)          -- the mask sift of first-layer column `col` raised (error propagates)
+  deriving DecidableEq
+
+/-- The `for ii in range(IA.shape[1])` loop of `mask_sift_second_layer`.  `ii` = index of the first-layer
+    column, `nfreqs = len(mask_freqs)`; `MS ii k col` = `mask_sift(col, mask_freqs=mask_freqs[ii:], max_imfs=k,
+    **sift_args)` (`none` = it raised).  The highest-frequency mask is dropped for each successive column, so
+    column `ii` has `nfreqs - ii` masks left; with none left `mask_sift` raises IndexError on `mask_freqs[0]`.
+    Every result is stored in a zero block of width `k` (`imf2[:, ii, :tmp.shape[1]] = tmp`). -/
+def maskSecondLoop (MS : Nat → Nat → Sig → Option (List Sig)) (n k nfreqs : Nat) : Nat → List Sig → L2Result
+  | _, [] => .ok []
+  | ii, col :: rest =>
+    if nfreqs ≤ ii then .indexError ii
+    else match MS ii k col with
+      | none => .raised ii
+      | some cols =>
+        match maskSecondLoop MS n k nfreqs (ii + 1) rest with
+        | .ok bs => .ok (padCols n k cols :: bs)
+        | e => e
+
+/-- mask_sift_second_layer: one capped mask sift per first-layer column (ALL of them), stored in a
+    [n × first × k] array, k = max_imfs of sift_args, default: number of first-layer columns -/
+def maskSecondLayer (MS : Nat → Nat → Sig → Option (List Sig)) (n : Nat) (ia : List Sig) (nfreqs : Nat)
+    (cap : Option Nat) : L2Result :=
+  maskSecondLoop MS n (cap.getD ia.length) nfreqs 0 ia
+
+/-- `mask_sift` of this model as the per-column sift of `mask_sift_second_layer`: column `ii` is sifted with the
+    masks `mask_freqs[ii:]` (`M ii` = masked extraction with that shortened list), so its cap is lowered to
+    `nfreqs - ii` (`effCap`) -/
+def maskSiftCol (M : Nat → List Sig → Sig → Option (Sig × Bool)) (thr : Rat) (nfreqs fuel : Nat) :
+    Nat → Nat → Sig → Option (List Sig) := fun ii k col =>
+  match maskSift (M ii) thr k (some (nfreqs - ii)) col fuel with
+  | (_, .raised) => none
+  | (cols, _) => some cols
+
 /-! ## driver ops -/
 
 open Protocol
@@ -500,6 +538,28 @@ def handleL2 (o : Op) : String := Id.run do
   let filled := out.map fun b => (b.filter (· != [0])).length
   return s!"ok d1={out.length} d2={d2} uniform={fmtBool uniform} | {fmtNats filled}"
 
+/-- ML2-SHAPE: shape, zero padding and frequency exhaustion of mask_sift_second_layer from the widths of the
+    inner mask sifts (width 0 = that mask sift raised) -/
+def handleML2 (o : Op) : String := Id.run do
+  let some cap := parseOptNat o "cap" | return "bad-op"
+  let some nfreqs := o.nat? "nfreqs" | return "bad-op"
+  let some ws := (o.vec? 0) >>= toNats? | return "bad-op"
+  if cap == some 0 then return "bad-op"
+  let ia : List Sig := (List.range ws.length).map fun (i : Nat) => [((i : Nat) : Rat)]
+  -- the inner sift of column ii: `ws[ii]` columns, cut by the model's own cap logic (max_imfs, masks left)
+  let M : Nat → List Sig → Sig → Option (Sig × Bool) := fun ii cols _ =>
+    let w := (ws[ii]?).getD 0
+    if w = 0 then none else some ([1], decide (cols.length + 1 < w))
+  let out := maskSecondLayer (maskSiftCol M 0 nfreqs (ws.foldl max 0 + 1)) 1 ia nfreqs cap
+  match out with
+  | .indexError c => return s!"err IndexError col={c}"
+  | .raised c => return s!"err Raised col={c}"
+  | .ok blocks =>
+    let d2 := match blocks with | b :: _ => b.length | [] => cap.getD ia.length
+    let uniform := blocks.all (·.length == d2)
+    let filled := blocks.map fun b => (b.filter (· != [0])).length
+    return s!"ok d1={blocks.length} d2={d2} uniform={fmtBool uniform} | {fmtNats filled}"
+
 def handle (o : Op) : Option String :=
   match o.name with
   | "GNI" => some (handleGni o)
@@ -510,6 +570,7 @@ def handle (o : Op) : Option String :=
   | "ENS-SHAPE" => some (handleEns o)
   | "CEEMD-SHAPE" => some (handleCeemd o)
   | "L2-SHAPE" => some (handleL2 o)
+  | "ML2-SHAPE" => some (handleML2 o)
   | _ => none
 
 end Sift
